@@ -42,6 +42,7 @@ SPEC_CORPUS = [
     "{ a = -9223372036854775808; }", "[ 1 # c\n ]", "[ 1 /* c */ ]", "rec { a = 1; }", "{ inherit a; }", "[ a ]", "[ 1 ] 2",
     "", "[", "[ 1", "{ a = 1 }", "{ a = ; }", "[ \"a ]", "[ 01 ]", "[ 1e5 ]", "[ 1E5 ]", "[ 1.5E+3 1.5e-3 1.5e3 ]", "[ 0.0 -0.0 ]",
     "{ a = -0.0; }", "[ 1\t2\r\n3 ]", "{ a-b = 1; a' = 2; _x = 3; }", "[ (1) ]", "[ (-1) ]", "{ a = (1); }", "[ ''x'' ]",
+    "[ (1)(2) ]", "[ (1 2) ]", "[ () ]", "(1)(2)", "[ (1) ((2.5)) ]", "{ a = (-1); }", "( -1 )", "[ \"a\rb\" ]", "[ \"a\\rb\" ]",
     "[ ./a ]", "[ <a> ]", "[ a.b ]", "[ 1 . 2 ]", "[ 1. ]", "[ 1.;", "{ a = 1.; }", "[ -a ]", "{ a = -a; }", "{ a = --1; }",
 ]
 
